@@ -2025,8 +2025,12 @@ def gen_c19(rng, mode):
                 cmds.append(Cmd([c], "ins", c=ord(c), n=1))
             elif r < 0.8:
                 cmds.append(Cmd([rng.choice(["Left", "Right", "Home", "End"])], "motion"))
-            elif r < 0.9:
+            elif r < 0.88:
                 cmds.append(Cmd([rng.choice(["Backspace", "C-u", "C-w"])], "edit"))
+            elif r < 0.92:
+                # suspend (signals option off: the key reaches the keymap; the terminal is restored, the process signals
+                # itself -- ignored here -- and raw mode is entered again): messages after it are still the editor's to show
+                cmds.append(Cmd(["C-z"], "motion"))
             elif mode == "vi":
                 cmds.append(Cmd(["Esc"], "motion"))
                 insert = False
